@@ -2,6 +2,7 @@
 import re
 
 from bsrules.lib import *
+from bsrules.lib import _expr_call_objs
 
 META = {
     "explanation": (
@@ -92,6 +93,27 @@ def rule_kind(ck):
             d = f"{conv[0].name.split('::')[-1]}({rec}, {off})"
             ok = src in off and arg in off and rec == "arg1"
         ck.ob("kind.arith", f"{short(nm)}/offset-source", ok, d, h.loc())
+
+
+def rule_offset_owner(ck):
+    """an address is made object-relative with the offset of its own mapping"""
+    prog = ck.prog
+    ck.rule("wmc.offset_owner", "every call of RelocatedAddress::remove_vas_region_offset(a, off) takes `off` from Debugee::mapping_offset_for_pc looked up for that same address `a` in the same function (into_global is the model instance); an offset resolved once for another address (e.g. frame 0's pc, hoisted out of a loop over return addresses) is wrong as soon as the addresses belong to different objects")
+    sites = list(who_calls(prog, lambda c: c.name == REL + "::remove_vas_region_offset"))
+    ck.floor("wmc.offset_owner", "remove_vas_region_offset call sites (incl. into_global)", len(sites), 1)
+    for key, c in keyed_sites(sites, lambda c: short(owner_fn(c.fn.path))):
+        f = c.fn
+        ck.saw(f)
+        off = expr_of(f, c.args[1], depth=10)
+        rec = expr_of(f, c.args[0], depth=10)
+        srcs = [x for x in _expr_call_objs(off) if x.name.endswith("Debugee::mapping_offset_for_pc")]
+        ok = False
+        d = f"offset = {expr_str(off, 8)[:100]}"
+        if len(srcs) == 1:
+            looked = expr_of(f, srcs[0].args[1], depth=10)
+            ok = looked == rec and looked[0] != "unknown"
+            d = f"offset looked up for {expr_str(looked, 6)[:60]}, applied to {expr_str(rec, 6)[:60]}"
+        ck.ob("wmc.offset_owner", f"{key}/offset-of-the-same-address", ok, d, f.loc(c.bb), what="an address is converted to object-relative form with the mapping offset of a different address")
 
 
 def rule_linker_map(ck):
@@ -192,5 +214,6 @@ def rule_region_lookup(ck):
 
 def run(ck):
     rule_kind(ck)
+    rule_offset_owner(ck)
     rule_linker_map(ck)
     rule_region_lookup(ck)
